@@ -54,18 +54,31 @@ class KeySys(HSystem):
 
     def fresh(self):
         from crysp.hmac import HMAC
-        o = HMAC(H.make(self.a), self.keys['short'])
+        h = H.make(self.a)
+        o = HMAC(h, self.keys['short'])
         o(b'a first MAC under the first key')          # histories start from an object that has already been used
-        return {'o': o, 'key': 'short', 'buf': bytearray(20), 'lbuf': bytearray(H.blocklen(self.a) + 9)}
+        return {'o': o, 'h': h, 'key': 'short', 'buf': bytearray(20), 'lbuf': bytearray(H.blocklen(self.a) + 9)}
 
     def canon(self, o):
         from mc.engine import canon as gcanon
         return (o['key'], gcanon(o['o']), bytes(o['buf']), bytes(o['lbuf']))
 
     def events(self, o):
-        return [('setkey', k) for k in self.keys] + [('mac', 0), ('mac', 1), ('setkey-buf', 0), ('setkey-buf', 1), ('scribble-buf',), ('setkey-long-buf', 0), ('setkey-long-buf', 1), ('setkey-long-bytes', 0)]
+        return [('setkey', k) for k in self.keys] + [('mac', 0), ('mac', 1), ('setkey-buf', 0), ('setkey-buf', 1), ('scribble-buf',), ('setkey-long-buf', 0), ('setkey-long-buf', 1), ('setkey-long-bytes', 0),
+                                                     ('foreign', 'plain'), ('foreign', 'options'), ('foreign', 'unfinished')]
 
     def apply(self, o, ev):
+        if ev[0] == 'foreign':
+            # the caller also uses the hash object it gave to HMAC directly: one-shot, with per-call options, and an
+            # update it never finishes.  RFC 2104 defines every later MAC all the same.
+            h = o['h']
+            if ev[1] == 'plain':
+                return h(b'foreign use of the hash object')
+            if ev[1] == 'options':
+                if self.a in H.BLAKES:
+                    return h(b'salted', s=(1 << 127) | 0x1234567)
+                return h(b'\xa5\x5a', bitlen=11)
+            return h.update(ramp(H.blocklen(self.a) * 2, 3, 8), padding=False)
         if ev[0] == 'setkey-buf':
             # the caller keeps ONE mutable key buffer for the whole history, overwrites it in place and sets it again
             o['buf'][:] = self.bufkeys[ev[1]]
@@ -92,6 +105,8 @@ class KeySys(HSystem):
         if ev[0] == 'mac':
             m = [b'message', ramp(H.blocklen(self.a) + 3, 3, 3)][ev[1]]
             ctx.eq('C13/%s/mac-after-setkey-sequence' % self.a, res, ('ok', rfc2104(self.a, self.keys[o['key']] if not isinstance(o['key'], tuple) else (self.bufkeys if o['key'][0] == 'buf' else self.lbufkeys)[o['key'][1]], m)))
+        elif ev[0] == 'foreign':
+            pass                                        # the hash objects themselves are C01 / C11 / C14
         elif ev[0] != 'scribble-buf':
             ctx.eq('C13/%s/setkey' % self.a, res[0], 'ok')
 
@@ -112,8 +127,8 @@ def subchecks():
     return [
         Sub('key-lengths', pts_keys, run_keys, engine='P',
             bound='13 hashes (MD4, MD5, SHA-1, SHA-224/256/384/512, SHA-512/224, SHA-512/256, BLAKE-224/256/384/512) x every key length 0..3 blocks (quick: 17 lengths around 0, the digest size, 1, 2 and 3 blocks) x 2 key patterns x 4 messages (empty, 3 bytes, one block, one block+1; 5 blocks-1 at 5 key lengths)'),
-        hsub('setkey-histories', systems, lambda tier: 3 if tier == 'quick' else 4,
-             bound='one HMAC object per hash (quick: 5 hashes), events setkey(short/exact/long/empty/2 blocks), setkey with one caller-owned bytearray overwritten in place, and two MACs, all histories to depth 3 (thorough 4), state = (key class, stored key)'),
+        hsub('setkey-histories', systems, lambda tier: 3 if tier == 'quick' else 4, split=lambda tier: 4 if tier == 'quick' else 16,
+             bound='one HMAC object per hash (quick: 5 hashes), events setkey(short/exact/long/empty/2 blocks), setkey with one caller-owned bytearray overwritten in place, direct use of the shared hash object by the caller (one-shot, with salt / bit length, an unfinished update), and two MACs, all histories to depth 3 (thorough 4), state = (key class, stored key)'),
     ]
 
 
